@@ -333,6 +333,9 @@ CHECKS["C09"] = {
         {"name": "client-inbound", "pkg": "cliworld", "run": "^TestC09Client$",
          "quick": {"shards": 3, "checks": 1500, "timeout_s": 420},
          "thorough": {"shards": 16, "checks": 20000, "timeout_s": 2400}},
+        {"name": "client-stream", "pkg": "cliworld", "run": "^TestC09ClientStream$",
+         "quick": {"shards": 2, "checks": 300, "timeout_s": 420},
+         "thorough": {"shards": 8, "checks": 4000, "timeout_s": 2400}},
     ],
 }
 
